@@ -1,5 +1,6 @@
 """C03 - after an update no configured occurrence is left stale."""
 from campaigns.life import Life
+from campaigns.badconfig import BadConfig
 
 PROPERTY = "C03"
 LEVEL = "exploration"
@@ -13,7 +14,8 @@ ASSUMPTIONS = ["template model + ref.pattern renderer are the oracle; filler nev
                "value of a {pep440_version} slot is attributed to C15, staleness to C03"]
 COMPONENTS = {"bumpver cli update/show, config, rewrite": "real", "files": "real scratch directory", "clock": "simulated",
               "VCS": "none or FakeRepo (git personality)"}
-CAMPAIGNS = [Life("C03", quick=14000, thorough=400000, mode="mix", sv_rate=0.08)]
+CAMPAIGNS = [Life("C03", quick=14000, thorough=400000, mode="mix", sv_rate=0.08),
+             BadConfig("C03", "dup_key", quick=400, thorough=8000)]
 
 
 def sanity_gate(tier, total):
